@@ -201,6 +201,14 @@ Definition backward (ectx : ptr) (b : cppcallback) : option ccallback :=
 Definition valid_answer (r : crule) (client_answer : bool) : bool :=
   if cr_has_valid r then client_answer else true.
 
+(* CAPIRule::isResultValid as a function: what the engine is told, given the client's callback (which reads the blob it is
+   shown with its length).  The stored value is handed over whatever it consists of - the empty value included. *)
+Definition valid_thunk (r : crule) (client : bytes -> bool) (v : bytes) : bool :=
+  if cr_has_valid r then client (copy_n (out_vector v)) else true.
+(* a hypothetical deviation (NOT the code): an empty stored value is declared invalid without asking the client *)
+Definition valid_thunk_skip_empty (r : crule) (client : bytes -> bool) (v : bytes) : bool :=
+  if cr_has_valid r then match v with [] => false | _ => client (copy_n (out_vector v)) end else true.
+
 (* llb_buildengine_build: *result_out = llb_data_t{ result.size(), result.data() } *)
 Definition build_result (v : bytes) : cdata := out_vector v.
 
